@@ -49,7 +49,7 @@ ENDS = ["none", "none_tc", "full", "h", "hm", "hms", "m", "ms", "s", "jt",
 END_FIELDS = {"h": ["hour"], "hm": ["hour", "minute"],
               "hms": ["hour", "minute", "second"], "m": ["minute"],
               "ms": ["minute", "second"], "s": ["second"]}
-SPLITS = ["flat", "datedir", "yeardir", "fielddirs"]
+SPLITS = ["flat", "datedir", "yeardir", "fielddirs", "satdir"]
 USERS = ["none", "default", "regex", "list"]
 SEPS = ["", "-", "_", ".", "T"]
 DIMS = [list(DATES), list(TAILS), ENDS, SPLITS, USERS, SEPS]
@@ -78,6 +78,8 @@ def valid(combo):
     date, tail, end, split, user, sep = combo
     if end_fields(date, tail, end) is None:
         return False
+    if split == "satdir" and user == "none":
+        return False         # repeats the user placeholder in dir and file
     return True
 
 
@@ -96,6 +98,8 @@ def build_template(combo):
         rel = ph(d) + "/p" + sep + upart + ph(t) + estr + ".dat"
     elif split == "yeardir":
         rel = "{%s}/p" % d[0] + sep + upart + ph(d) + tstr + estr + ".dat"
+    elif split == "satdir":
+        rel = "{sat}/p" + sep + upart + ph(d) + tstr + estr + ".dat"
     else:
         rel = "/".join("{%s}" % x for x in d) + "/p" + sep + upart + \
             ph(t) + estr + ".dat"
@@ -399,7 +403,7 @@ def check_edit(fs, base, rel, relname, users, tc):
     ref = reference_reading(rel, relname, users, tc)
     if ref[0] == "skip":
         return "skip"
-    name = os.path.join(base, relname)
+    name = base + "/" + relname      # (join would drop base for '/x')
     try:
         info = fs.get_info(name)
         got = ("ok", info.times[0], info.times[1], dict(info.attr))
